@@ -81,6 +81,12 @@ def replay_step(res, family, kinds=None, modes="base", profile="release", backen
         args += ["--force-backend", str(backend)]
     if big:
         args += ["--big"]
+    hdir = os.path.join(WORK, "run", "%s-%s" % (res.prop, res.tier), "hashes")
+    os.makedirs(hdir, exist_ok=True)
+    res.hash_files = getattr(res, "hash_files", [])
+    hf = os.path.join(hdir, "h%d.bin" % len(res.hash_files))
+    res.hash_files.append(hf)
+    args += ["--hashes", hf]
     t0 = time.time()
     r = _run_replayer(bindir, args, files, timeout)
     lab = label or ("%s/%s/%s%s%s" % (family, modes, profile, "/backend%s" % backend if backend is not None else "", "/" + variant["subdir"] if variant.get("subdir") else ""))
@@ -121,7 +127,7 @@ def replay_step(res, family, kinds=None, modes="base", profile="release", backen
         raise ToolError("replayer could not parse %d vector lines (%s)" % (summ["unparsed_lines"], lab))
     res.traces += summ["vectors"]
     res.evaluations += summ["observations"]
-    res.nontrivial += summ["nontrivial"]
+    res.vector_runs = getattr(res, "vector_runs", 0) + summ["nontrivial"]
     res.drift += summ["drift"]
     for s in summ["samples"]:
         if len(res.samples) < 8:
@@ -164,6 +170,19 @@ def replay_step(res, family, kinds=None, modes="base", profile="release", backen
 
 def finish(res, level, level_rule, assumptions):
     known = load_known()
+    # distinct non-trivial vectors over all replay steps of this run (same vector replayed in
+    # several modes / profiles / backends counts once), measured from 64-bit hashes
+    hfs = [f for f in getattr(res, "hash_files", []) if os.path.exists(f)]
+    if hfs:
+        try:
+            bindir = build_harness("release")
+            out = subprocess.run([os.path.join(bindir, "replayer"), "--merge"] + hfs, capture_output=True, text=True, timeout=600).stdout.strip()
+            res.nontrivial += int(out)
+            res.extra["distinct_vectors"] = int(out)
+            res.extra["vector_replays_total"] = getattr(res, "vector_runs", 0)
+        except Exception as e:
+            res.notes.append("distinct count failed: %s" % e)
+        shutil.rmtree(os.path.dirname(hfs[0]), ignore_errors=True)
     wall = time.time() - res.t0
     new = []
     for v in res.violations:
@@ -284,3 +303,27 @@ def trace_slice(path, idx, start_ev=("call", "reset", "session")):
             pass
         hi += 1
     return lines[lo:hi], idx - lo
+
+
+# ------------------------------------------------------------------ Apalache
+def apalache_step(res, label, module, init, inv, nxt="Next", length=1, expect_violation=False, timeout=600):
+    """symbolic check (unbounded integers) of an inductive invariant; the obligations go into the evidence"""
+    wd = os.path.join(WORK, "run", "%s-%s" % (res.prop, res.tier), "apa-" + label)
+    shutil.rmtree(wd, ignore_errors=True)
+    os.makedirs(wd)
+    t0 = time.time()
+    cmd = ["timeout", str(timeout), "apalache-mc", "check", "--init=" + init, "--inv=" + inv, "--next=" + nxt,
+           "--length=%d" % length, "--out-dir=" + wd, os.path.join(SPEC, module + ".tla")]
+    r = subprocess.run(cmd, capture_output=True, text=True, errors="replace", cwd=wd)
+    out = r.stdout + r.stderr
+    ok = "EXITCODE: OK" in out
+    violated = "invariant 0 violated" in out or "violation1" in out
+    shutil.rmtree(wd, ignore_errors=True)
+    if not ok and not violated:
+        raise ToolError("apalache failed on %s (%s):\n%s" % (module, label, out[-2000:]))
+    if expect_violation != violated:
+        raise ToolError("apalache: %s %s %s unexpectedly %s" % (module, init, inv, "violated" if violated else "holds"))
+    res.mc.append({"step": "apalache-" + label, "module": module, "init": init, "inv": inv, "next": nxt, "length": length,
+                   "outcome": "refuted (as it must be)" if violated else "holds", "wall_s": round(time.time() - t0, 1)})
+    res.extra["apalache_obligations"] = res.extra.get("apalache_obligations", 0) + 1
+    log("  [apalache] %-22s %s /\\ %s => %s' : %s (%.0fs)" % (label, init, nxt, inv, "refuted, as expected" if violated else "holds", time.time() - t0))
